@@ -106,10 +106,137 @@ def cases(tier, inst):
         for cls in ("Base", "Sub", "USub", "Hand", "Item"):
             for style in ("from", "let"):
                 yield ("single", member, cls, style)
+    # (h) hierarchies made of classes that are NEW in every case (so what the library remembers per class starts
+    #     empty): positional values reach fields the base class does not have or has elsewhere, and the base class is
+    #     used in a query before / after / never
+    for shape in HIER:
+        for deco_t in (True, False):
+            for before in ("none", "P:from", "P:let", "P:kw", "T:kw+P:from"):
+                nf = len(HIER[shape][2])
+                for r in range(0, nf + 1):
+                    for vals in itertools.product((1, 2), repeat=r):
+                        yield ("freshhier", shape, deco_t, before, "pos", vals)
+                if before in ("none", "P:from"):
+                    for r in range(1, nf + 1):
+                        for fs in itertools.combinations(range(nf), r):
+                            yield ("freshhier", shape, deco_t, before, "kw", fs)
     # (e) one From object shared by two declarations
     for c1, c2 in (("Base", "Base"), ("Base", "Sub"), ("Sub", "Base"), ("Hand", "Base"), ("Base", "USub")):
         for join in ("none", "k"):
             yield ("shared", c1, c2, join)
+
+
+# shape -> (source text of the classes, positional order of P, positional order of T)
+HIER = {
+    "adds_field": ("class P: a, b;  class T(P): + c", ("a", "b"), ("a", "b", "c")),
+    "two_bases": ("class N: a;  class Z: b;  P = N;  class T(N, Z)   # dataclass field order: b, a", ("a",), ("b", "a")),
+    "hand_init": ("class P: a, b;  class T(P): def __init__(self, c, a, b=1)", ("a", "b"), ("c", "a", "b")),
+    "two_levels": ("class G: a;  class P(G): + b;  class T(P): + c   # G is never used", ("a", "b"), ("a", "b", "c")),
+}
+
+
+def make_hier(shape, deco_t):
+    from dataclasses import dataclass
+    from entity_query_language import symbol
+    if shape == "adds_field":
+        @symbol
+        @dataclass(eq=False)
+        class P:
+            a: int = 1
+            b: int = 1
+
+        @dataclass(eq=False)
+        class T(P):
+            c: int = 1
+    elif shape == "two_bases":
+        @symbol
+        @dataclass(eq=False)
+        class P:
+            a: int = 1
+
+        @symbol
+        @dataclass(eq=False)
+        class Z:
+            b: int = 1
+
+        @dataclass(eq=False)
+        class T(P, Z):
+            pass
+    elif shape == "hand_init":
+        @symbol
+        @dataclass(eq=False)
+        class P:
+            a: int = 1
+            b: int = 1
+
+        class T(P):
+            def __init__(self, c=1, a=1, b=1):
+                super().__init__(a, b)
+                self.c = c
+    else:
+        @symbol
+        @dataclass(eq=False)
+        class G:
+            a: int = 1
+
+        @dataclass(eq=False)
+        class P(G):
+            b: int = 1
+
+        @dataclass(eq=False)
+        class T(P):
+            c: int = 1
+    if deco_t:
+        T = symbol(T)
+    return P, T
+
+
+def run_freshhier(case, inst):
+    _, shape, deco_t, before, how, spec = case
+    from entity_query_language import an, entity, let, symbolic_mode, From
+    P, T = make_hier(shape, deco_t)
+    pf, tf = HIER[shape][1], HIER[shape][2]
+    vs = (inst.v(1), inst.v(2))
+    dom = []
+    for vals in itertools.product(vs, repeat=len(pf)):
+        dom.append(P(**dict(zip(pf, vals))))
+    for vals in itertools.product(vs, repeat=len(tf)):
+        dom.append(T(**dict(zip(tf, vals))))
+    dom.insert(3, "junk")
+    dom = inst.rotate(dom)
+    # what happened to the classes before the term under test is written
+    for step in before.split("+"):
+        if step == "none":
+            continue
+        with symbolic_mode():
+            if step == "P:from":
+                q0 = an(entity(P(From(dom))))
+            elif step == "P:let":
+                q0 = an(entity(let(P, dom)))
+            elif step == "P:kw":
+                q0 = an(entity(P(From(dom), a=vs[0])))
+            else:
+                q0 = an(entity(T(From(dom), a=vs[0])))
+        r0 = list(q0.evaluate())
+        cls0, want0 = (T, True) if step.startswith("T") else (P, step == "P:kw")
+        e0 = [o for o in dom if isinstance(o, cls0) and (not want0 or o.a == vs[0])]
+        if [id(o) for o in r0] != [id(o) for o in e0]:
+            return ("before", len(r0)), ("before", len(e0)), len(dom)
+    if how == "pos":
+        given = dict(zip(tf, [inst.v(v) for v in spec]))
+        args, kw = list(given.values()), {}
+    else:
+        given = {tf[i]: vs[i % 2] for i in spec}
+        args, kw = [], given
+    try:
+        with symbolic_mode():
+            q = an(entity(T(From(dom), *args, **kw)))
+        got = list(q.evaluate())
+    except Exception as e:
+        got = exc_obs(e)
+    exp = [o for o in dom if isinstance(o, T) and all(getattr(o, f) == v for f, v in given.items())]
+    lab_ = lambda o: f"{type(o).__name__}(" + ", ".join(f"{f}={getattr(o, f)}" for f in tf if hasattr(o, f)) + ")"   # noqa: E731
+    return (got if is_exc(got) else [(lab_(o), dom.index(o)) for o in got]), [(lab_(o), dom.index(o)) for o in exp], len(dom)
 
 
 def lit_pairs(pairs):
@@ -242,6 +369,16 @@ def lab(kind, res):
 
 
 def run_case(case, inst):
+    if case[0] == "freshhier":
+        got, exp, n = run_isolated(lambda: run_freshhier(case, inst))
+        res = {"ok": got == exp, "nontrivial": 0 < len(exp) < n, "transitions": 2,
+               "tags": ["family=freshhier", f"shape={case[1]}", f"before={case[3]}", f"how={case[4]}"],
+               "outcome": f"freshhier:{len(exp)}"}
+        if got != exp:
+            k = f"exc:{got[1]}" if is_exc(got) else ("missing" if set(exp) - set(got) else ("extra" if set(got) - set(exp) else "order-or-count"))
+            res.update(sig=f"freshhier:{k}/{case[1]}/before={case[3]}/{case[4]}", obs=got, exp=exp)
+        return res
+
     def body():
         world = build_world(wspec_of(case), inst)
         q, qe, exp, kind = build_case(case, world, inst)
@@ -266,6 +403,17 @@ def run_case(case, inst):
 
 
 def describe(case, inst):
+    if case[0] == "freshhier":
+        _, shape, deco_t, before, how, spec = case
+        tf = HIER[shape][2]
+        term = ("T(From(d), " + ", ".join(repr(inst.v(v)) for v in spec) + ")") if how == "pos" else \
+            ("T(From(d), " + ", ".join(f"{tf[i]}={inst.v(1 + i % 2)!r}" for i in spec) + ")")
+        return (f"# classes defined anew for this case (all dataclasses(eq=False) with defaults 1, P decorated with @symbol, "
+                f"T {'decorated' if deco_t else 'not decorated'}):\n#   {HIER[shape][0]}\n"
+                f"d = every P and every T with field values in ({inst.v(1)}, {inst.v(2)}), plus 'junk'\n"
+                f"# evaluated before, in this order: {before}   (P:from = an(entity(P(From(d)))), P:let = an(entity(let(P, d))), "
+                f"P:kw = an(entity(P(From(d), a={inst.v(1)}))), T:kw = an(entity(T(From(d), a={inst.v(1)}))))\n"
+                f"q = an(entity({term}))\nresult = list(q.evaluate())   # expected: isinstance(o, T) and the given fields equal")
     world = None
     try:
         w = build_world(wspec_of(case), inst)
